@@ -194,6 +194,13 @@ fn anb_via_rule(s: &str, n: usize) -> Result<Vec<usize>, String> {
 
 /// independent spec of the An+B notation: grammar  [sign] [digits] n [sign digits] | [sign] digits, blanks ignored
 fn spec_anb(s: &str) -> Option<(i64, i64)> {
+  // a magnitude beyond i32::MAX is not expressible: the implementation answers with an error (never a panic)
+  let too_big = std::cell::Cell::new(false);
+  let r = spec_anb_inner(s, &too_big);
+  if too_big.get() { None } else { r }
+}
+
+fn spec_anb_inner(s: &str, too_big: &std::cell::Cell<bool>) -> Option<(i64, i64)> {
   let t: Vec<char> = s.chars().filter(|c| !c.is_whitespace()).collect();
   let mut i = 0;
   let sign = |i: &mut usize| -> i64 {
@@ -208,8 +215,11 @@ fn spec_anb(s: &str) -> Option<(i64, i64)> {
     let st = *i;
     let mut v: i64 = 0;
     while *i < t.len() && t[*i].is_ascii_digit() {
-      v = v * 10 + (t[*i] as i64 - 48);
+      v = (v * 10 + (t[*i] as i64 - 48)).min(1 << 40);
       *i += 1;
+    }
+    if v > i32::MAX as i64 {
+      too_big.set(true);
     }
     if *i == st { None } else { Some(v) }
   };
@@ -268,6 +278,28 @@ fn stream_anb(o: &Opts, out: &mut Out) {
   for _ in 0..(if o.thorough { 4000 } else { 600 }) {
     let len = 5 + rng.below(4);
     strs.push((0..len).map(|_| *rng.pick(&alpha)).collect());
+  }
+  // canonical spellings of LARGE (A, B), chosen so that the few siblings still observe both numbers exactly:
+  // A*1 + B = k selects {k} alone (B <= 0), and (A, k) selects {k} alone when |A| > n. Magnitudes up to the i32
+  // boundary on both sides (C20_anb_parse_render: every |A|, |B| <= 2^31-1 parses back to itself), leading zeros
+  // (C20_anb_parse_formula), and the first inexpressible magnitude 2^31
+  {
+    let mx = i32::MAX as i64;
+    let mut big: Vec<i64> = vec![mx, mx - 1, mx / 10, mx / 10 + 1, 1_000_000_000, 999_999_999, 214_748_365, 65_536, 100];
+    for _ in 0..(if o.thorough { 400 } else { 60 }) {
+      big.push(rng.range(25, mx));
+    }
+    for (j, a) in big.iter().enumerate() {
+      let k = 1 + (j as i64 % n as i64);
+      strs.push(format!("{a}n{}", k - a));          // A > 0, B = k - A < 0: only n = 1 lands in 1..=n
+      strs.push(format!("-{a}n+{k}"));              // A < 0, B = k: only n = 0
+      strs.push(format!("{a}n+{k}"));               // A > n, B = k: only n = 0
+      strs.push(format!("+000{a} n - 00{}", a - k)); // leading zeros, blanks, explicit plus
+      out.count("anb:large-magnitudes");
+    }
+    for s in ["2147483648n+1", "-2147483648n+1", "n+2147483648", "n-2147483648", "2147483647n-2147483647", "-2147483647n+2147483647", "4294967297n+1", "n+18446744073709551617"] {
+      strs.push(s.to_string());
+    }
   }
   for s in &strs {
     let got = anb_via_rule(s, n);
